@@ -43,6 +43,7 @@ def run(ctx):
     ctx.call(N.run_decision_table, "6r")
     ctx.call(N.clean_decision_table, "6c")
     ctx.call(GR.dependency_lookup, "7")
+    ctx.call(GR.object_root_value, "14")
     ctx.call(GR.dependency_provenance, "7p")
     ctx.call(GR.dependency_table, "7t")
     ctx.call(GR.identity_forms, "8")
